@@ -267,6 +267,9 @@ def present(values, how, rng=None):
         return list(values), None, list(values), None
     if how == "array":
         return np.array(values, dtype=np.int64), None, list(values), None
+    if how == "array_u":
+        # unsigned integer dtype: a natural container for non-negative integers (file sizes, counts); negation and subtraction wrap around on such scalars
+        return np.array(values, dtype=np.uint64 if (rng is not None and rng.random() < 0.5) else np.uint32), None, list(values), None
     if how == "array_f":
         return np.array(values, dtype=np.float64), None, list(values), None
     if how in ("dict_str", "names_str"):
@@ -295,7 +298,13 @@ def present(values, how, rng=None):
 
 
 def value_of(name, vmap):
-    return name if vmap is None else vmap[name]
+    """Exact value of an item as a plain Python number (numpy scalars are converted: oracle arithmetic must never inherit a fixed-width dtype)."""
+    v = name if vmap is None else vmap[name]
+    if isinstance(v, np.integer):
+        return int(v)
+    if isinstance(v, np.floating):
+        return float(v)
+    return v
 
 
 def exact(x):
